@@ -212,6 +212,13 @@ func (d *denum) split(cond ast.Expr, in []dstate) (t, f []dstate) {
 		for _, s := range in {
 			b, bound := s.env[ob]
 			if bound && ob != nil && !refersTo(d.info, b, ob) {
+				// `_, ok := table[key]` over a constant package-level map used as a set: ok ⇔ key == k1 || key == k2 || …
+				if memb := d.membership(b); memb != nil {
+					bt, bf := d.split(memb, []dstate{s})
+					t = append(t, bt...)
+					f = append(f, bf...)
+					continue
+				}
 				switch ast.Unparen(b).(type) {
 				case *ast.BinaryExpr, *ast.UnaryExpr, *ast.Ident, *ast.SelectorExpr, *ast.CallExpr, *ast.StarExpr:
 					if lit, isID := ast.Unparen(b).(*ast.Ident); isID && (lit.Name == "true" || lit.Name == "false") {
@@ -658,6 +665,55 @@ func (d *denum) havoc(st ast.Stmt, in []dstate) []dstate {
 			}
 		}
 		out[i] = dstate{conds: s.conds, env: env, trace: s.trace}
+	}
+	return out
+}
+
+// membership: b is the synthetic second result of a map index expression (`_, ok := m[k]`) and m is a package-level
+// map initialised with a composite literal of constant keys that is never written elsewhere: the equivalent
+// disjunction `k == key1 || k == key2 || …` (nil otherwise).
+func (d *denum) membership(b ast.Expr) ast.Expr {
+	outer, ok := ast.Unparen(b).(*ast.IndexExpr)
+	if !ok || outer.Lbrack != token.NoPos {
+		return nil
+	}
+	if bl, ok := outer.Index.(*ast.BasicLit); !ok || bl.Value != "1" {
+		return nil
+	}
+	ix, ok := ast.Unparen(outer.X).(*ast.IndexExpr)
+	if !ok {
+		return nil
+	}
+	id, ok := ast.Unparen(ix.X).(*ast.Ident)
+	if !ok {
+		return nil
+	}
+	init, ok := d.inits[d.info.ObjectOf(id)]
+	if !ok {
+		return nil
+	}
+	cl, ok := ast.Unparen(init).(*ast.CompositeLit)
+	if !ok {
+		return nil
+	}
+	if _, isMap := d.info.TypeOf(cl).Underlying().(*types.Map); !isMap {
+		return nil
+	}
+	var out ast.Expr
+	for _, el := range cl.Elts {
+		kv, ok := el.(*ast.KeyValueExpr)
+		if !ok {
+			return nil
+		}
+		if tv, ok := d.info.Types[kv.Key]; !ok || tv.Value == nil {
+			return nil
+		}
+		eq := &ast.BinaryExpr{X: ix.Index, Op: token.EQL, Y: kv.Key, OpPos: kv.Key.Pos()}
+		if out == nil {
+			out = eq
+		} else {
+			out = &ast.BinaryExpr{X: out, Op: token.LOR, Y: eq, OpPos: kv.Key.Pos()}
+		}
 	}
 	return out
 }
